@@ -67,3 +67,33 @@ Proof.
   - intros c d Hd. apply (of_derived_In n tb2 OF) in Hd. apply Hd.
   - intro c. lia.
 Qed.
+
+(* ... and that lattice is the one `compile_with stale R` installs, for every well-formed registry *)
+From Y2 Require Import Proofs.CompileProofs Proofs.CorollaryProofs.
+
+Theorem src_lattice_compile R stale C : wf_registry R -> compile_with stale R = Ok C ->
+  let keys := class_keys R in
+  let n := length keys in
+  exists tb0 tb1,
+    let L := o_lat C in
+    L = lattice_from R (map (fun l => dedupn l []) tb1) /\
+    (exists m, run_collect (proj R) gen_collect (r_classes R) [] [] = Some (m, l_info L)
+               /\ forall t, assocN (proj R t) m = class_of R keys t) /\
+    run_bases (class_of R keys) gen_bases (r_classes R) (repeat [] n) = Ok tb0 /\
+    run_closure (S (n * n)) gen_closure tb0 = Ok tb1 /\
+    forall marks W0 cm M loc, length W0 = n -> (length marks = n /\ forall k, nth k marks 0 <= cm) ->
+      exists s1 s2 s3,
+        mk_exec gen_dedup env0 (mk_mk tb1 (repeat [] n) (repeat [] n) marks W0 cm M loc) = Some s1 /\
+        mk_exec gen_direct env0 s1 = Some s2 /\
+        mk_exec gen_derived env0 s2 = Some s3 /\
+        m_tb s3 = l_tb L /\ m_dir s3 = l_direct L /\ m_der s3 = l_derived L /\
+        cv_all (S n) gen_covariant (m_der s3) (seq 0 n) (repeat [] n) = Some (l_cov L).
+Proof.
+  intros Hwf HC keys n.
+  destruct (compile_char R stale Hwf) as [L [ms [HL [_ [HC' _]]]]].
+  rewrite HC in HC'. inversion HC' as [EC]. clear HC'.
+  destruct Hwf as [Hacy [Hbr _]].
+  destruct (src_augment_classes R Hacy Hbr) as [tb0 [tb1 H]]. cbv zeta in H. destruct H as [Haug Hrest].
+  exists tb0, tb1. cbv zeta. rewrite install_lat.
+  rewrite HL in Haug. injection Haug as EL. split; [exact EL|]. fold keys n in Hrest. rewrite EL. exact Hrest.
+Qed.
